@@ -120,7 +120,7 @@ def run(tier, seed):
                      {"id": iid, "tier": tier, "observer": on, "want": wants, "ts": ts_src[len(prog.PRINTER) + len(gen04.HELP):][:3000]},
                      cluster=cluster_of(meta, on, tvals[k], wants[0]))
     chk.coverage = {"evaluations": nobs, "programs": len(items), "distinct_nontrivial": len(distinct), "agreeing_observations": agree, "core_deviation_skipped": core_dev, "core_deviation_by_observer": core_by, "groups": groups,
-                    "sample": {"id": items[5][0], "ts": items[5][1][len(prog.PRINTER) + len(gen04.HELP):][:600], "js": items[5][2][len(prog.PRINTER) + len(gen04.HELP):][:600]},
+                    "samples": [{"id": items[k][0], "ts": items[k][1][len(prog.PRINTER) + len(gen04.HELP):][:600], "js": items[k][2][len(prog.PRINTER) + len(gen04.HELP):][:600]} for k in (5, len(items) // 2)],
                     "rule": "every declaration shape of the generator (enums: all member-kind tuples of length<=3 over %d kinds plus a structured length-4 set, each as one block, split into two merged blocks at every point, as const enum, and at top level / in a function / in a block; namespaces: all item lists of length<=%d over 9 (kind, exported) choices with two nested-body menus, as one block and split into merged blocks at every point; parameter properties: all modifier x default tuples for <=%d parameters, plain and derived; abstract classes: subsets of 8 member kinds) x every observer; oracle = the reference engine's result for the tsc emit (golden table), key sets sorted" % (len(gen04.KINDS_Q if tier == "quick" else gen04.KINDS_T), 2 if tier == "quick" else 3, 2 if tier == "quick" else 3)}
     chk.assumptions = ["the emit rules coded in vlib/gen04.py are those of tsc (target ES2022, no const-enum preservation); only type-correct programs are generated",
                        "an observation on which tsrun's evaluation of the plain-JavaScript emit is equally wrong is a core-language deviation (C01) and is not reported here",
